@@ -783,6 +783,35 @@ async def c09_dm_stop_during_start(w):
             "expected": "starts [0, 1]; decorators 0 and 1 stopped exactly once; decorator 2 never started"}
 
 
+async def c08_filter_scope(w):
+    """Two events of one type through a real @event_trigger with a filter naming a key only the first event carries: the second
+    event must be judged on its own data (the name is undefined there: error logged, no run), not on the first event's value."""
+    from types import SimpleNamespace as NS
+    out = {}
+    for legacy in (False, True):
+        hass = await boot_full(legacy=legacy)
+        runs = []
+        from custom_components.pyscript.global_ctx import GlobalContext, GlobalContextMgr
+        name = f"file.c08s{int(legacy)}"
+        gctx = GlobalContext(name, global_sym_table={"__name__": name, "ran": runs.append}, manager=GlobalContextMgr)
+        GlobalContextMgr.set(name, gctx)
+        gctx.set_auto_start(True)
+        src = '@event_trigger("c08_scope_ev", "level == 3")\ndef f(**kw):\n    ran(kw.get("n"))\n'
+        await run_source(name, src, global_ctx=gctx)
+        await settle(20)
+        for data in ({"n": 1, "level": 3}, {"n": 2}):
+            for cb in list(hass.bus.listeners.get("c08_scope_ev", [])):
+                r = cb(NS(event_type="c08_scope_ev", context=None, data=dict(data)))
+                if asyncio.iscoroutine(r):
+                    await r
+            await settle(30)
+        out["legacy" if legacy else "new"] = list(runs)
+        gctx.stop()
+        await shutdown()
+    ok = all(v == [1] for v in out.values())
+    return {"reproduced": not ok, "observed": {"runs (event numbers)": out}, "expected": "[1] in both subsystems: the second event has no `level`"}
+
+
 async def c12_outgoing(w):
     """service.call / domain.service() with control-keyword look-alikes; data delivered must equal the given kwargs
     minus control keywords of the recognised type."""
